@@ -30,6 +30,7 @@ type c15Case struct {
 	Disk     bool   `json:"disk"`               // run on a real directory with a canary tree
 	Abs      bool   `json:"abs,omitempty"`      // name is made absolute by prefixing the scratch root
 	Intact   bool   `json:"intact,omitempty"`   // declared files lying directly in the archive directory are present with their original bytes
+	FailW    bool   `json:"failw,omitempty"`    // in-memory runs: the first file write of Repair fails (whatever Repair then tries instead must stay inside)
 	Zero     bool   `json:"zero,omitempty"`     // the hostile entry declares a file of length 0 (nothing to reconstruct, but something to create)
 	NonSaved bool   `json:"nonsaved,omitempty"` // PAR1: the hostile entry is listed but not saved in the parity set (status bit 0 clear)
 	Dmg      bool   `json:"dmg,omitempty"`      // damaged copies of the declared files are present in the archive directory (else they are missing)
@@ -95,6 +96,10 @@ func c15Gen(g *core.Gen) {
 		for _, n := range names {
 			for pos := 0; pos < 2; pos++ {
 				g.Emit(&c15Case{Fmt: f, Name: n, Pos: pos, Zero: true})
+				if len(n) <= 6 {
+					g.Emit(&c15Case{Fmt: f, Name: n, Pos: pos, FailW: true})
+					g.Emit(&c15Case{Fmt: f, Name: n, Pos: pos, FailW: true, Dmg: true})
+				}
 				for _, dmg := range []bool{false, true} {
 					g.Emit(&c15Case{Fmt: f, Name: n, Pos: pos, Dmg: dmg})
 					if f == "p1" {
@@ -243,6 +248,18 @@ func c15Run(ci interface{}, r *core.Rec) {
 		fs.Put(root+"/canary.txt", []byte("canary"))
 		fs.Put(root+"/outside/keep", []byte("keep"))
 		before := fs.Snapshot()
+		if c.FailW {
+			nw := 0
+			fs.Hook = func(index int, kind, p string, data []byte) *envfs.Fault {
+				if kind == "write" {
+					nw++
+					if nw == 1 {
+						return &envfs.Fault{Err: envfs.ErrInjected, Partial: -1, Kind: "error"}
+					}
+				}
+				return nil
+			}
+		}
 		for _, op := range []string{"verify", "verify-all", "repair"} {
 			if op == "verify-all" && c.Fmt == "p2" {
 				continue
@@ -408,7 +425,7 @@ func init() {
 	core.Register(&core.Prop{
 		ID:    "C15",
 		Level: "model_checking",
-		Rule: "bounded-exhaustive declared names: every path built from components {a, .., ., empty, a.., ..a} of length 1-4 (thorough 1-5), each with/without a leading and a trailing slash, plus '..' look-alikes with a control character inside / before / after, backslash, NUL, drive-letter, UNC, long-traversal and non-ASCII (UTF-8, Latin-1, invalid UTF-8) spellings and absolute paths into a canary tree; in each position of a 2-file set; PAR1 and PAR2 archives written by the reference writers as fully repairable sets whose declared files are x {missing, present in the archive directory but damaged, present and intact (PAR1)}; the hostile entry also declared with length 0; real Verify (PAR1: also with the full parity check) and Repair; PAR1 also with the hostile entry listed but not saved in the parity set. Real-directory runs execute from a third directory inside the canary tree, so anything resolved against the current directory is seen. All names run on the recording in-memory filesystem; names shorter than 9 characters (thorough: 12) additionally on a real directory with a canary tree (byte snapshot of everything around the archive directory before/after). PAR2 Create with inputs outside the index directory in 10 spellings. " +
+		Rule: "bounded-exhaustive declared names: every path built from components {a, .., ., empty, a.., ..a} of length 1-4 (thorough 1-5), each with/without a leading and a trailing slash, plus '..' look-alikes with a control character inside / before / after, backslash, NUL, drive-letter, UNC, long-traversal and non-ASCII (UTF-8, Latin-1, invalid UTF-8) spellings and absolute paths into a canary tree; in each position of a 2-file set; PAR1 and PAR2 archives written by the reference writers as fully repairable sets whose declared files are x {missing, present in the archive directory but damaged, present and intact (PAR1)}; the hostile entry also declared with length 0; short names also with the first file write of Repair failing (a fallback location must stay inside too); real Verify (PAR1: also with the full parity check) and Repair; PAR1 also with the hostile entry listed but not saved in the parity set. Real-directory runs execute from a third directory inside the canary tree, so anything resolved against the current directory is seen. All names run on the recording in-memory filesystem; names shorter than 9 characters (thorough: 12) additionally on a real directory with a canary tree (byte snapshot of everything around the archive directory before/after). PAR2 Create with inputs outside the index directory in 10 spellings. " +
 			"Oracle: every write path, cleaned, lies inside the index directory tree (PAR1: directly in it); nothing outside changes or appears; Create refuses. non-trivial = every case (each declares a hostile or boundary name)",
 		Assumptions: []string{"reads outside the directory are counted in evidence but are not an alarm (the statement constrains create/modify/delete)", "Linux path semantics: backslash is an ordinary character"},
 		NewCase:     func() interface{} { return &c15Case{} },
